@@ -16,7 +16,7 @@ import subprocess
 import common as C
 
 POOLS = {"quick": ["s"], "thorough": ["s", "n", "q"]}
-KEY = {"C12": "c12", "C13": "c13", "C14": "c14"}
+KEY = {"C12": "c12", "C13": "c13", "C14": "c14", "C07": "c07"}
 
 
 def _validate(out, prop, trace, tag):
@@ -68,6 +68,18 @@ def _validate(out, prop, trace, tag):
             case["calls"] = list(reversed(calls))
         out.verdict(rec, case)
     return n - 1
+
+
+def edited_queries(out, prop, tier, wd):
+    """C07 on edited documents: random DOM histories with the query battery after every change; the structure of
+    every node-set (document order by the harness's own walk, no duplicates) is judged by Trace_Dom.tla"""
+    nh, ln = {"quick": (6, 120), "thorough": (60, 300)}[tier]
+    rec = os.path.join(wd, "editq.trace")
+    so, crashed = C.run_harness_watched(["dom-record", "--out", rec, "--histories", str(nh), "--len", str(ln),
+                                         "--seed", str(C.seed()), "--queries"], rec, timeout=3000)
+    n = _validate(out, prop, rec, "editq")
+    os.unlink(rec)
+    return n
 
 
 def _shards(args_base, n, wd, name):
